@@ -246,6 +246,31 @@ def run(rep):
                 okclip = False
                 det = f"ordering value/lo/hi ranks {ranks}: stores {sorted(map(str, got))}, clip gives {want}"
     rep.check(okclip, "R12.b", file, "Vector.__setattr__", "element store is clipped to [mins[idx], maxs[idx]] for every ordering of value and bounds", det, line=sa.lineno)
+    if okclip:
+        # an accepted NaN is stored as NaN (the clip keeps it): value unordered, lo <= hi
+        oknan, detn, nlive = True, "", 0
+        for rk in ({"v": None, "lo": 0, "hi": 1}, {"v": None, "lo": 0, "hi": 0}):
+            for p_, e in stores:
+                fc = pq.flat_conds(p_.conds)
+                if pq.cond_truth(fc, "self._accept_nan") is False or pq.cond_truth(fc, "self.accept_nan") is False:
+                    continue
+                live = True
+                for c, t in fc:
+                    ov = pq.order_value(c, rk, syms)
+                    if isinstance(ov, bool) and ov != t:
+                        live = False
+                if not live:
+                    continue
+                nlive += 1
+                g = pq.order_value(e.val, rk, syms)
+                if g is None:
+                    oknan, detn = None, "stored expression outside the min / max vocabulary"
+                elif g != "v" and oknan:
+                    oknan, detn = False, f"a NaN value is stored as `{g}` (the {'lower' if g == 'lo' else 'upper'} bound): {_show(e.val)[:100]}"
+        if oknan is None or not nlive:
+            rep.undecided("R12.b", file, "Vector.__setattr__", "an accepted NaN is stored as NaN", detn or "no live path", line=sa.lineno)
+        else:
+            rep.check(oknan, "R12.b", file, "Vector.__setattr__", "an accepted NaN is stored as NaN (the element clip keeps it)", detn, line=sa.lineno)
     NANX = pq.parse("np.isnan(X)", {"X": ('sym', valname)})
     nr = [p_ for p_ in rais if pq.cond_truth(pq.flat_conds(p_.conds), NANX) is True and pq.cond_truth(pq.flat_conds(p_.conds), "self._accept_nan") is False]
     leak = [p_ for p_ in done if pq.cond_truth(pq.flat_conds(p_.conds), NANX) is True and pq.cond_truth(pq.flat_conds(p_.conds), "self._accept_nan") is False]
@@ -306,7 +331,7 @@ def run(rep):
                               f"not passed: the rebuilt vector gets the default instead of the source's {pn}", line=c.lineno)
                 continue
             src = source_name(bound[pn])
-            okp = src is None or src not in CTOR_STATE or src == pn
+            okp = src is None or src not in set(CTOR_STATE) | {"values", "hitbounds", "nval"} or src == pn
             rep.check(okp, "R12.e", file, f"Vector.{rb}", f"constructor parameter `{pn}`",
                       f"bound to `{ast.unparse(bound[pn])}`" + ("" if okp else f", i.e. the source's {src}"), line=c.lineno)
         # order: hit flag restored after the values
